@@ -35,10 +35,26 @@ def _explore_worker(i):
     """Explore one unit in a worker process; return a picklable summary (SMT-LIB strings)."""
     from pyvc import verify
     u = _UNITS[i]
+    import signal
+
+    def _too_long(signum, frame):
+        raise ExploreTimeout()
+    try:
+        signal.signal(signal.SIGALRM, _too_long)
+        signal.alarm(EXPLORE_LIMIT)
+    except (ValueError, AttributeError):
+        pass
     try:
         r = verify.explore(u, _REPO)
+    except ExploreTimeout:
+        return {'i': i, 'crash': 'exploration of unit %s exceeded %d s (engine limit, not a verdict about the code)' % (u.name, EXPLORE_LIMIT)}
     except Exception:
         return {'i': i, 'crash': traceback.format_exc(limit=6)}
+    finally:
+        try:
+            signal.alarm(0)
+        except (ValueError, AttributeError):
+            pass
     obls = []
     for o in r.obligations:
         triv = z3.is_true(o.goal) and not o.hyps
@@ -51,10 +67,31 @@ def _explore_worker(i):
             'obls': obls, 'canary': can, 'loopsig': getattr(r, 'loopsig', '')}
 
 
+def _collect(it, limit, what):
+    """Results of a pool iterator.  multiprocessing.Pool never delivers the task of a worker that died (seen: a crash inside libz3) and,
+    if the worker died holding the task-queue lock, starves every other worker: without a limit the check would hang forever.  No
+    result at all for `limit` seconds is a checker error (exit 3), never a verdict."""
+    import multiprocessing
+    while True:
+        try:
+            yield it.next(timeout=limit)
+        except StopIteration:
+            return
+        except multiprocessing.TimeoutError:
+            raise RuntimeError('worker pool delivered nothing for %d s during %s (a worker process died?)' % (limit, what))
+
+
 def _lemma_worker(i):
     from pyvc import verify
     name, hyps, goal = _UNITS[i]
     return {'i': i, 'smt2': verify.smt2_of(hyps, goal)}
+
+
+EXPLORE_LIMIT = 600         # seconds of symbolic exploration per unit (normally seconds; the slowest unit takes about 40 s)
+
+
+class ExploreTimeout(BaseException):
+    """(a BaseException: the engine's `except Exception` around the code under verification must not take it for an exception of the code)"""
 
 
 class CaseTimeout(BaseException):
@@ -171,7 +208,7 @@ class Report:
         summaries = []
         with mp.get_context('fork').Pool(procs) as pool:
             if units:
-                summaries = pool.map(_explore_worker, range(len(units)), chunksize=1)
+                summaries = list(_collect(pool.imap(_explore_worker, range(len(units)), chunksize=1), EXPLORE_LIMIT + 120, 'exploration'))
             jobs = []
             meta = {}
             counts = {}
@@ -208,11 +245,11 @@ class Report:
                 jobs.append((uid, meta[uid]['smt2'], [], tl, True))
             t_explore = time.time() - t0
             results = {}
-            for r in pool.imap_unordered(verify.solve_one, jobs, chunksize=1):
+            for r in _collect(pool.imap_unordered(verify.solve_one, jobs, chunksize=1), tl * 8 + 120, 'solving'):
                 results[r['uid']] = r
             t_solve = time.time() - t0
             bad = []
-            for r in pool.imap_unordered(verify.solve_one, canjobs, chunksize=1):
+            for r in _collect(pool.imap_unordered(verify.solve_one, canjobs, chunksize=1), tl * 8 + 120, 'solving'):
                 if r['status'] == 'unsat':
                     bad.append(r['uid'])
             self.canaries = (len(canjobs), bad)
@@ -230,7 +267,7 @@ class Report:
             slow = [uid for uid, r in results.items() if r['status'] in ('unknown', 'timeout') and meta[uid]['base'] in base_names0]
             if slow and load > 0.5 * (os.cpu_count() or 16):
                 self.patience['retried'] = len(slow)
-                for r in pool.imap_unordered(verify.solve_one, [(uid, meta[uid]['smt2'], meta[uid]['unit'].observables if meta[uid]['unit'] is not None else [], tl * 3, True) for uid in slow], chunksize=1):
+                for r in _collect(pool.imap_unordered(verify.solve_one, [(uid, meta[uid]['smt2'], meta[uid]['unit'].observables if meta[uid]['unit'] is not None else [], tl * 3, True) for uid in slow], chunksize=1), tl * 3 * 8 + 120, 'solving'):
                     if r['status'] == 'unsat':
                         r['backend'] = r['backend'] + ' (patience pass, load %.1f)' % load
                         r['tries'] = (results[r['uid']].get('tries') or []) + (r.get('tries') or [])
@@ -246,7 +283,7 @@ class Report:
                         s2 = meta[uid]['smt2'].replace('(check-sat)', extra + '(check-sat)')
                         retry.append(('%s@n=%d' % (uid, k), s2, u.observables, 6, False))
             found = {}
-            for r in pool.imap_unordered(verify.solve_one, retry, chunksize=1):
+            for r in _collect(pool.imap_unordered(verify.solve_one, retry, chunksize=1), tl * 8 + 120, 'solving'):
                 if r['status'] == 'sat':
                     uid = r['uid'].split('@n=')[0]
                     if uid not in found or r['uid'] < found[uid]['uid']:
